@@ -243,7 +243,9 @@ def choose_table(freq, total, strategy, maxlen, tree_len, domain=None):
 
 # ------------------------------------------------------- serialization ----
 
-def _put_len_value(bw, l):
+def _put_len_value(bw, l, st=None):
+    if st is not None and l >= 7:
+        st["unary_ext"] += 1
     if l < 7:
         bw.put(l, 3)
     else:
@@ -312,11 +314,14 @@ def code_length_tokens(lengths, n, style, rng, overrun=False):
     return toks
 
 
-def _write_temp_table(bw, kind, val, n_style, skip_field, rng):
+def _write_temp_table(bw, kind, val, n_style, skip_field, rng, st):
     if kind == "single":
         bw.put(0, 5)
         bw.put(val, 5)
+        st["temp_single"] += 1
         return
+    st["temp_table"] += 1
+    st["max_temp_len"] = max(st["max_temp_len"], max(val))
     ls = val
     last = max(i for i, l in enumerate(ls) if l) + 1
     if n_style == "min":
@@ -331,7 +336,7 @@ def _write_temp_table(bw, kind, val, n_style, skip_field, rng):
     bw.put(n, 5)
     i = 0
     while i < n:
-        _put_len_value(bw, ls[i])
+        _put_len_value(bw, ls[i], st)
         if i == 2:
             z = 0
             while z < 3 and ls[3 + z] == 0:
@@ -348,6 +353,9 @@ def _write_temp_table(bw, kind, val, n_style, skip_field, rng):
             else:
                 raise ValueError("bad skip_field %r" % (skip_field,))
             bw.put(s, 2)
+            st["skip"][s] += 1
+            if 3 + s > n:
+                st["skip_past_n"] += 1
             i += s
         i += 1
 
@@ -355,14 +363,29 @@ def _write_temp_table(bw, kind, val, n_style, skip_field, rng):
 def _write_block_tables(bw, P, blk, code_tab, off_tab, o):
     """o: option dict for this block"""
     rng = o["rng"]
+    st = o["stats"]
     ncodes = P["ncodes"]
     # ---- code table and the temp table that codes it
     if code_tab[0] == "single":
-        bw.put(0, 5)                  # temp table: unused, single symbol 0
-        bw.put(0, 5)
+        # the temp table is still parsed, although nothing is coded with it
+        if o["idle_temp"] == "n0":
+            bw.put(0, 5)
+            bw.put(0, 5)
+        elif o["idle_temp"] == "skip3":
+            bw.put(3, 5)              # three lengths 1,2,2; the skip field then runs past n
+            bw.put(1, 3)
+            bw.put(2, 3)
+            bw.put(2, 3)
+            bw.put(3, 2)
+            st["skip"][3] += 1
+            st["skip_past_n"] += 1
+        else:
+            raise ValueError("bad idle_temp %r" % (o["idle_temp"],))
         bw.put(0, 9)
         bw.put(code_tab[1], 9)
+        st["code_single"] += 1
     else:
+        st["code_table"] += 1
         ls = code_tab[1]
         last = max(i for i, l in enumerate(ls) if l) + 1
         n = last if o["code_n"] == "min" else ncodes
@@ -370,6 +393,8 @@ def _write_block_tables(bw, P, blk, code_tab, off_tab, o):
         tfreq = {}
         for t in toks:
             tfreq[t[0]] = tfreq.get(t[0], 0) + 1
+            if t[0] <= 2:
+                st["zero_tokens"][t[0]] += 1
         ttotal = TEMP_MAX
         tdomain = TEMP_MAX if o["temp_n"] == "max" else max(TEMP_STD, max(tfreq) + 1)
         texp = o["temp_lengths"]
@@ -392,7 +417,7 @@ def _write_block_tables(bw, P, blk, code_tab, off_tab, o):
             if set(tfreq) != {ttab[1]}:
                 raise ValueError("single temp symbol does not cover the tokens")
             tcodes = {ttab[1]: (0, 0)}
-        _write_temp_table(bw, ttab[0], ttab[1], o["temp_n"], o["skip_field"], rng)
+        _write_temp_table(bw, ttab[0], ttab[1], o["temp_n"], o["skip_field"], rng, st)
         bw.put(n, 9)
         for sym, x, xb in toks:
             bw.put_code(tcodes[sym])
@@ -402,20 +427,22 @@ def _write_block_tables(bw, P, blk, code_tab, off_tab, o):
     if off_tab[0] == "single":
         bw.put(0, ob)
         bw.put(off_tab[1], ob)
+        st["offset_single"] += 1
     else:
+        st["offset_table"] += 1
         ls = off_tab[1]
         last = max(i for i, l in enumerate(ls) if l) + 1
         n = last if o["offset_n"] == "min" else (1 << ob) - 1
         bw.put(n, ob)
         for i in range(n):
-            _put_len_value(bw, ls[i])
+            _put_len_value(bw, ls[i], st)
 
 
 def encode(cmds, method, block_sizes=None, strategy="huffman", offset_strategy=None,
            temp_strategy="huffman", lengths=None, offset_lengths=None, temp_lengths=None,
            zero_run_style="long", skip_field="auto", code_n="min", temp_n="min", offset_n="min",
            overrun=False, max_code_len=16, max_temp_len=16, max_offset_len=None,
-           allow_alias=False, lk7_514="288", seed=0, pad_bit=0, pad_bytes=0):
+           allow_alias=False, lk7_514="288", idle_temp="n0", seed=0, pad_bit=0, pad_bytes=0, info=None):
     """Encode a command list.
 
     Structure options (each of strategy / offset_strategy / temp_strategy / zero_run_style /
@@ -457,6 +484,9 @@ def encode(cmds, method, block_sizes=None, strategy="huffman", offset_strategy=N
       code_n           "min": n = last used symbol + 1;  "max": n = alphabet size (trailing zeros
                        written as runs)
       temp_n           "min" | "std" (at least 19) | "max" (31; dummy symbols may use 19..30)
+      idle_temp        what to write as temp table when the code table uses the n=0 form (the
+                       temp table is parsed but unused): "n0" (n=0 form) | "skip3" (n=3 with a
+                       skip field of 3, i.e. the skip runs past n)
       offset_n         "min" | "max" (2^OFFSET_BITS - 1)
       max_code_len     16 (LHA's limit); lhasa accepts up to 28
       allow_alias      permit distances >= window size (they alias modulo the window) as long as
@@ -464,6 +494,9 @@ def encode(cmds, method, block_sizes=None, strategy="huffman", offset_strategy=N
       lk7_514          "288" | "287": which of the two encodings of length 514 to use (-lk7-)
       seed             seed for the random choices above
       pad_bit, pad_bytes  trailing padding
+      info             optional dict; receives statistics about what was emitted (number of
+                       blocks / empty blocks, single vs. table forms, longest code actually used
+                       by a command, zero-run token kinds, skip-field values, ...)
     """
     if method not in PARAMS:
         raise ValueError("unknown method %r" % (method,))
@@ -490,6 +523,11 @@ def encode(cmds, method, block_sizes=None, strategy="huffman", offset_strategy=N
     if max_offset_len is None:
         max_offset_len = 16
     bw = BitWriter()
+    stats = dict(blocks=len(blocks), empty_blocks=sum(1 for b in blocks if not b), code_single=0,
+                 code_table=0, temp_single=0, temp_table=0, offset_single=0, offset_table=0,
+                 max_code_len_used=0, max_offset_len_used=0, max_temp_len=0, unary_ext=0,
+                 zero_tokens=[0, 0, 0], skip=[0, 0, 0, 0], skip_past_n=0,
+                 code_syms=set(), offset_syms=set())
     for bi, blk in enumerate(blocks):
         cfreq = {}
         ofreq = {}
@@ -530,11 +568,17 @@ def encode(cmds, method, block_sizes=None, strategy="huffman", offset_strategy=N
         o = dict(rng=rng, zero_run_style=_pick(zero_run_style, bi), skip_field=_pick(skip_field, bi),
                  code_n=_pick(code_n, bi), temp_n=_pick(temp_n, bi), offset_n=_pick(offset_n, bi),
                  overrun=overrun, temp_strategy=_pick(temp_strategy, bi), temp_lengths=temp_lengths,
-                 max_temp_len=max_temp_len)
+                 max_temp_len=max_temp_len, stats=stats, idle_temp=_pick(idle_temp, bi))
         bw.put(len(blk), 16)
         _write_block_tables(bw, P, bi, ctab, otab, o)
         cc = codes["code"]
         oc = codes["offset"]
+        stats["code_syms"].update(cfreq)
+        stats["offset_syms"].update(ofreq)
+        if cc is not None and cfreq:
+            stats["max_code_len_used"] = max(stats["max_code_len_used"], max(cc[s][1] for s in cfreq))
+        if oc is not None and ofreq:
+            stats["max_offset_len_used"] = max(stats["max_offset_len_used"], max(oc[s][1] for s in ofreq))
         for cs, cx, cb, os_, ox, ob in blk:
             if cc is not None:
                 bw.put_code(cc[cs])
@@ -543,6 +587,8 @@ def encode(cmds, method, block_sizes=None, strategy="huffman", offset_strategy=N
                 if oc is not None:
                     bw.put_code(oc[os_])
                 bw.put(ox, ob)
+    if info is not None:
+        info.update(stats)
     return bw.getvalue(pad_bit, pad_bytes)
 
 
